@@ -138,7 +138,7 @@ def retryStage {σ W : Type} (p : Policy σ) (ed : Edits) (o : Outcome) (ra : Na
 /-- One pass through the body of the `for` loop of `Request.do`, the mutable part threaded
 through exactly where the code re-reads it.  Same statements as `Req.Retry.iteration`. -/
 def diteration {σ W : Type} (v : Variant) (p : Policy σ) (ed : Edits) (mw : Nat → σ → σ × W)
-    (o : Outcome) (ra : Nat) (st : σ) (d : Dyn) (prev : Option Resp) : Pass σ W :=
+    (su : σ → Bool) (o : Outcome) (ra : Nat) (st : σ) (d : Dyn) (prev : Option Resp) : Pass σ W :=
   if o = .beforeErr then
     ⟨[.before ra], d, ra, st, .inl (.done prev (some (ra, .before)))⟩
   else
@@ -151,6 +151,8 @@ def diteration {σ W : Type} (v : Variant) (p : Policy σ) (ed : Edits) (mw : Na
     let d1 := editsOf ed d a.1
     if a.2.2 then ⟨ev0, d1, ra, m.1, .inl (.done rt.1 a.2.1)⟩
     else if cannotRetry (withDyn p d1) o ra then ⟨ev0, d1, ra, m.1, .inl (.done rt.1 a.2.1)⟩
+    -- C10-8: the body this attempt has just read cannot be sent again (`su`: stop, unreplayable)
+    else if su m.1 then ⟨ev0, d1, ra, m.1, .inl (.done rt.1 a.2.1)⟩
     else retryStage p ed o ra view rt.1 a.2.1 ev0 d1 m.1
 
 /-- Where a call of `do` leaves the request. -/
@@ -162,15 +164,15 @@ structure End (σ : Type) where
   rest : List Outcome
 
 /-- The `for` loop. -/
-def dloop {σ W : Type} (v : Variant) (p : Policy σ) (ed : Edits) (mw : Nat → σ → σ × W) :
+def dloop {σ W : Type} (v : Variant) (p : Policy σ) (ed : Edits) (mw : Nat → σ → σ × W) (su : σ → Bool) :
     List Outcome → Nat → σ → Dyn → Option Resp → List (Event W) × Final × End σ
   | [], ra, st, d, _ => ([], .exhausted, ⟨ra, st, d, []⟩)
   | o :: rest, ra, st, d, prev =>
-    let r := diteration v p ed mw o ra st d prev
+    let r := diteration v p ed mw su o ra st d prev
     match r.out with
     | .inl fin => (r.events, fin, ⟨r.ra, r.st, r.dyn, rest⟩)
     | .inr prev' =>
-      let t := dloop v p ed mw rest r.ra r.st r.dyn prev'
+      let t := dloop v p ed mw su rest r.ra r.st r.dyn prev'
       (r.events ++ t.1, t.2)
 
 /-- `Request.Do` on the request as it is now (`RetryAttempt = ra`, nothing reset). -/
@@ -178,7 +180,7 @@ def dsend {σ W : Type} (v : Variant) (p : Policy σ) (ed : Edits) (mw : Nat →
     (unreplayable : σ → Bool) (script : List Outcome) (ra : Nat) (st : σ) (d : Dyn) :
     List (Event W) × Final × End σ :=
   if d.enabled && d.maxRetries != 0 && unreplayable st then ([], .refused, ⟨ra, st, d, script⟩)
-  else dloop v p ed mw script ra st d none
+  else dloop v p ed mw (fun s => v.loopRefuse && unreplayable s) script ra st d none
 
 /-- The further `Do` calls on the same `Request`: for every element of `again` the caller's
 setter calls (on a fresh context) followed by another `Do`. -/
